@@ -561,8 +561,12 @@ pub fn run_prop(prop: &dyn Prop, tier: Tier, seed: u64) -> i32 {
         "violations": violations.len(),
     });
     let edir = verif_root().join("evidence");
-    let _ = std::fs::create_dir_all(&edir);
-    let _ = std::fs::write(edir.join(format!("{id}.json")), serde_json::to_string_pretty(&ev).unwrap());
+    // VERIF_NO_EVIDENCE: sensitivity runs against a deliberately changed tree (tools/seeded.sh)
+    // must not overwrite the evidence of the real tree
+    if std::env::var("VERIF_NO_EVIDENCE").is_err() {
+        let _ = std::fs::create_dir_all(&edir);
+        let _ = std::fs::write(edir.join(format!("{id}.json")), serde_json::to_string_pretty(&ev).unwrap());
+    }
 
     if let Some((p, v)) = violations.first() {
         println!("VIOLATION property={} replay={}", id, p.display());
